@@ -412,13 +412,22 @@ def split_contract(text):
 
 
 class Unit:
-    def __init__(self, verif, repo, name):
+    def __init__(self, verif, repo, name, extra_items=()):
         self.verif = verif
         self.repo = repo
         self.name = name
         self.dir = os.path.join(verif, 'contracts', name)
         self.tpl = open(os.path.join(self.dir, 'unit.vt'), encoding='utf-8').read().split('\n')
         self.log = []
+        # N11 (automatic): a `const` of a source file the unit already extracts from, which the extracted code newly
+        # refers to, is copied verbatim as well (otherwise adding a named constant to a function under contract would
+        # make the unit undecidable instead of checked).  Inserted before the first extraction directive.
+        if extra_items:
+            k = next((i for i, l in enumerate(self.tpl) if l.startswith('@item') or l.startswith('@impl') or l.startswith('@fn')), None)
+            if k is not None:
+                self.tpl[k:k] = list(extra_items)
+                for l in extra_items:
+                    self.log.append({'rule': 'N11', 'where': name, 'before': '(constant referenced by extracted code, not named in the template)', 'after': l})
         self.renames = list(N3_GLOBAL)
         self.keep_derive = list(KEEP_DERIVE)
         self.props = []
@@ -897,6 +906,29 @@ class Unit:
             else:
                 layers.append({i})
         return layers
+
+    def fingerprints(self):
+        """Per-function hash of the verified text, plus a context hash of everything a function's verification
+        condition can depend on besides its own text (template text, extracted types/consts, and the signature +
+        function-level contract of every extracted function).  Verification is modular: if neither changed with
+        respect to the pinned tree, a failure of that function's obligations cannot be caused by the code."""
+        import hashlib
+        per = {}
+        head = {}
+        ctx = []
+        seen_slot = set()
+        for sg in self.segs:
+            if sg.fn is None:
+                ctx.append(sg.text)
+                continue
+            per.setdefault(sg.fn, []).append(sg.text)
+            if sg.kind == 'canary-slot':
+                seen_slot.add(sg.fn)
+            elif sg.fn not in seen_slot:
+                head.setdefault(sg.fn, []).append(sg.text)
+        h = lambda parts: hashlib.sha1(''.join(parts).encode('utf-8', 'replace')).hexdigest()[:16]
+        ctx_all = ctx + [''.join(head[f]) for f in sorted(head)]
+        return {'ctx': h(ctx_all), 'fns': {f: h(t) for f, t in per.items()}}
 
     def render(self, canary=False):
         """Returns (text, linemap) where linemap[i] = Seg for 1-based line i+1 start (by offset)."""
